@@ -14,6 +14,7 @@ import Gpa.Model.Logs
 import Gpa.Model.Ebpf
 import Gpa.Model.Provision
 import Gpa.Model.SetupFs
+import Gpa.Model.KeyKeeper
 
 open Gpa
 
@@ -25,6 +26,8 @@ structure DState where
   roll : Logs.Rolling := { cur := none, archives := [] }
   ebpf : Ebpf.State := { policy := [], skip := [], localMap := [], audit := [] }
   prov : Provision.Global := Provision.Global.init
+  kkAgent : KeyKeeper.Agent := KeyKeeper.Agent.init
+  kkFs : KeyKeeper.KeyDir := { final := [], tmp := [] }
   rollCfg : Logs.Settings := { maxSize := 1, maxCount := 1 }
 
 def showRoll (r : Logs.Rolling) : String :=
@@ -77,6 +80,51 @@ def showEv : SetupFs.Ev → String
   | .systemctl w => "sys:" ++ w
   | .write p => "w:" ++ toString (setupPaths.idxOf p)
   | .delete p => "d:" ++ toString (setupPaths.idxOf p)
+
+def pRuleItem : Tok.P KeyKeeper.RuleItem := do
+  let id ← Tok.str; let mode ← Tok.str; let c ← Tok.nat
+  pure { id, mode, content := c }
+
+def pOptBool : Tok.P (Option Bool) := do
+  match (← Tok.next) with
+  | "N" => pure none
+  | "1" => pure (some true)
+  | "0" => pure (some false)
+  | _ => failure
+
+def pDoc : Tok.P KeyKeeper.Doc := do
+  let version ← Tok.str
+  let scs ← Tok.opt Tok.str
+  let sce ← pOptBool
+  let kg ← Tok.opt Tok.str
+  let hasRules ← Pipeline.pBool
+  let ws ← Tok.opt pRuleItem; let imds ← Tok.opt pRuleItem; let hostga ← Tok.opt pRuleItem
+  pure { schemeOk := true, version, secureChannelState := scs, secureChannelEnabled := sce, keyGuid := kg, ws, imds, hostga, hasRules }
+
+def pAnswers : Tok.P KeyKeeper.Answers := do
+  let status ← (do match (← Tok.next) with
+    | "F" => pure KeyKeeper.StatusAnswer.failed
+    | "D" => do let d ← pDoc; pure (KeyKeeper.StatusAnswer.doc d)
+    | _ => failure)
+  let acquire ← Tok.opt (do let g ← Tok.str; let k ← Tok.str; pure ({ guid := g, key := k } : KeyKeeper.Key))
+  let storeOk ← Pipeline.pBool
+  let attestOk ← Pipeline.pBool
+  pure { status, acquire, storeOk, attestOk }
+
+def showRule (r : Option KeyKeeper.RuleItem) : String :=
+  match r with
+  | none => "none"
+  | some i => s!"{Pipeline.hexStr i.id};{Pipeline.hexStr i.mode};{i.content}"
+
+def showOut : KeyKeeper.Out → String
+  | .policy e r => s!"{e}:{if r then 1 else 0}"
+  | .acquired g => "acq:" ++ Pipeline.hexStr g
+  | .attested g => "att:" ++ Pipeline.hexStr g
+
+def showAgent (a : KeyKeeper.Agent) : String :=
+  let kg := match a.key with | some k => Pipeline.hexStr k.guid | none => "-"
+  let kv := match a.key with | some k => Pipeline.hexStr k.key | none => "-"
+  s!"ids={Pipeline.hexStr a.wsId},{Pipeline.hexStr a.imdsId},{Pipeline.hexStr a.hostgaId} key={kg},{kv} chan={Pipeline.hexStr a.chan} ws={showRule a.wsRules} imds={showRule a.imdsRules} hostga={showRule a.hostgaRules}"
 
 def stepLine (st : DState) (line : String) : DState × String :=
   match line.trimAscii.toString.splitOn " " with
@@ -273,6 +321,33 @@ def stepLine (st : DState) (line : String) : DState × String :=
           let r := SetupFs.run (fun x => x < 1000) fs c
           let out := setupPaths.map fun p => match r.1 p with | some v => toString v | none => "-"
           (st, " ".intercalate out ++ " | " ++ ",".intercalate (r.2.map showEv))
+      | none => (st, "bad-op")
+  | ["kk", "new"] => ({ st with kkAgent := KeyKeeper.Agent.init, kkFs := { final := [], tmp := [] } }, "ok")
+  | ["kk", "file", g, "remove"] =>
+      match Hex.decodeString g with
+      | some g => ({ st with kkFs := { st.kkFs with final := KeyKeeper.delF st.kkFs.final g.toList } }, "ok")
+      | none => (st, "bad-op")
+  | ["kk", "file", g, "garbage"] =>
+      match Hex.decodeString g with
+      | some g => ({ st with kkFs := { st.kkFs with final := KeyKeeper.setF st.kkFs.final g.toList .garbage } }, "ok")
+      | none => (st, "bad-op")
+  | ["kk", "file", g, "complete", g2, k] =>
+      match Hex.decodeString g, Hex.decodeString g2, Hex.decodeString k with
+      | some g, some g2, some k =>
+          ({ st with kkFs := { st.kkFs with final := KeyKeeper.setF st.kkFs.final g.toList (.complete { guid := g2.toList, key := k.toList }) } }, "ok")
+      | _, _, _ => (st, "bad-op")
+  | ["kk", "chan", c] =>
+      match Hex.decodeString c with
+      | some c => ({ st with kkAgent := { st.kkAgent with chan := c.toList } }, "ok")
+      | none => (st, "bad-op")
+  | "kk" :: "poll" :: toks =>
+      match Tok.run pAnswers toks with
+      | some ans =>
+          let r := KeyKeeper.poll st.kkAgent st.kkFs ans
+          let files := Text.sortBy (fun a b => Text.strLt a b) (r.2.1.final.filterMap fun kv => match kv.2 with
+            | .complete _ => some kv.1 | _ => none)
+          ({ st with kkAgent := r.1, kkFs := r.2.1 },
+            showAgent r.1 ++ s!" done={if r.2.2.2 then 1 else 0} outs={",".intercalate (r.2.2.1.map showOut)} files={",".intercalate (files.map Pipeline.hexStr)}")
       | none => (st, "bad-op")
   | "authz" :: toks =>
       match Tok.run (do let ip ← Tok.str; let port ← Tok.nat; let e ← Pipeline.pBool
